@@ -536,6 +536,19 @@ def generic(prog, rep, fam):
                 nm, val = t[2][1], t[2][2]
                 if nm[0] == "sub" and nm[1] == ("attr", SELF, "_param_names") and val[0] == "sub" and val[2] == nm[2]:
                     unpack_ok = True
+    if not good:
+        # the same dictionary built in one expression (a comprehension over the parameter names, possibly through a
+        # none-dropping helper): ONE symbolic entry f"f{name}" -> getattr(self, f"f_{name}") under 'is not None'
+        from vstat.terms import dict_entries
+        for st in cfg_of(mf).all_stmts():
+            if isinstance(st, ast.Assign) and len(st.targets) == 1 and isinstance(st.targets[0], ast.Name):
+                ents = dict_entries(bm.term(st.value, st))
+                for k, v, lits in ents or []:
+                    if k[0] == "fstr" and len(k[1]) == 2 and k[1][0] == ("const", "f") and k[1][1][0] == "fmt":
+                        name = k[1][1][1]
+                        want = ("call", G("getattr"), (SELF, ("fstr", (("const", "f_"), ("fmt", name, -1, "")))), ())
+                        if v == want and ("not", ("isnone", want)) in tuple(lits) + tuple(pm.of(st)) and name[0] == "sub" and name[1] == ("attr", SELF, "_param_names"):
+                            good = True
     rep.check(good, "C11.generic", f"{ci.qualname}._fit_mle:f_kw", mf.where(),
               "f<name> = self.f_<name> for each fixed parameter name (scipy accepts f<shape>, floc, fscale)",
               "each fixed parameter must be passed to scipy fit as f<name> with its own f_ value under 'is not None'")
